@@ -358,6 +358,8 @@ MaskSubseq(c) ==
 (***************************************************************************)
 (* Acceptance of one observed run (used by Trace_TreeRewrite).             *)
 (* obs = [outcome, result, orig, rebuilt] ; c additionally has inplace, rs *)
+(* rebuilt entries: [ko: object id of the key (0: not an object of the tree),*)
+(*   kt: the key's own term, v: pre-order index of the value in the result]*)
 (***************************************************************************)
 \* structural equality including object identity where the expectation specifies one (o >= 0)
 RECURSIVE Match(_, _)
@@ -405,7 +407,7 @@ RebuiltOK(c, obs) ==
          \E y \in 1..Len(obs.rebuilt) :
              LET e == obs.rebuilt[y] IN
              /\ e.v >= 1 /\ e.v <= Len(PR)
-             /\ OrigOf(e.ko) = Strip(n)
+             /\ (OrigOf(e.ko) = Strip(n) \/ (e.ko = 0 /\ e.kt = Strip(n)))
              /\ Strip(PR[e.v]) = Strip(Img(n, c))
 
 \* the returned structure is not an IR tree at all: a body contains a nested tuple, None, an
